@@ -39,38 +39,97 @@ def try_from_syntax_table(P):
     return True, "Ok only under !rate.is_zero(), PostingAmount::Single, different commodity"
 
 
-def intern_impl_after_absent_lookup(P):
-    """records.insert happens only in the two *_impl functions, and each call of those is
-    reached only on the `None` outcome of a lookup of the same key."""
-    impls = [INTERN + "::insert_canonical_impl", INTERN + "::insert_alias_impl"]
-    n = 0
-    for impl in impls:
-        P.body(impl)
-        callers = [c for c in q.callers_of(P, impl) if q.not_test(c[0])]
-        if not callers:
-            return False, "no caller of " + impl
-        for b, bb, t in callers:
-            n += 1
-            val = t["args"][1]
-            ok = False
-            for a in mir.guards_at(b, bb):
-                if a.kind != "variant" or a.label != ("None",):
+LOOKUPS = (INTERN + "::get", INTERN + "::resolve", "std::collections::HashMap::get", "std::collections::HashMap::get_key_value")
+ON_NONE = ("unwrap_or_else", "or_else", "ok_or_else", "map_or_else", "get_or_insert_with")
+
+
+def _key_names(b, o):
+    """names of the parameters / captured variables the operand is (a copy into the arena of)"""
+    out = set()
+    for r in prov(b, o):
+        if r.kind == "call" and str(r.name).endswith("alloc_str") and r.site is not None:
+            out |= _key_names(b, b.term(r.site)["args"][-1])
+        elif r.kind == "param" and not r.fields:
+            out.add(("param", r.name.split(":", 1)[-1]))
+        elif r.kind == "capture" and not r.fields:
+            out.add(("capture", r.name))
+        else:
+            out.add(("other", "%s:%s" % (r.kind, r.name)))
+    return out
+
+
+def _absent_guard(P, b, bb, key, depth=0):
+    """the site (b, bb) is only reached when a lookup of `key` (an operand of b) found nothing; -> reason or None"""
+    kn = _key_names(b, key)
+    if not kn or any(k[0] == "other" for k in kn):
+        return None
+    names = set(k[1] for k in kn)
+
+    def same_key(body, op):
+        k2 = _key_names(body, op)
+        return bool(k2) and all(x[0] != "other" for x in k2) and set(x[1] for x in k2) == names
+    # 1. a None / false outcome of a lookup of the same key dominates the site
+    for a in mir.guards_at(b, bb):
+        if a.kind == "variant" and a.label == ("None",):
+            for r in a.subject:
+                if r.kind == "call" and r.name in LOOKUPS and r.site is not None and same_key(b, b.term(r.site)["args"][1]):
+                    return "under the None outcome of %s(same key)" % r.name.rsplit("::", 1)[-1]
+        if a.kind == "call" and a.label == (False,) and str(a.subject[0]).endswith("contains_key"):
+            if same_key(b, b.term(a.subject[2])["args"][1]):
+                return "under !contains_key(same key)"
+    # 2. inside a closure that only runs on the None outcome of such a lookup
+    if b.is_closure:
+        par = P.bodies.get(b.parent)
+        if par is not None:
+            for pbb, pt in par.calls():
+                last = (callee(pt) or "").rsplit("::", 1)[-1].split("<")[0]
+                if last not in ON_NONE or len(pt["args"]) < 2:
                     continue
-                for r in a.subject:
-                    if r.kind == "call" and r.name in (INTERN + "::get", INTERN + "::resolve") and r.site is not None:
-                        lk = b.term(r.site)
-                        if panics.same_root_loose(b, lk["args"][1], val):
-                            ok = True
-            if not ok:
-                return False, "%s calls %s without a preceding absent lookup of the same key" % (b.key, impl.rsplit("::", 1)[-1])
-    # who may insert
-    for b in P.bodies.values():
-        if not q.not_test(b) or not b.key.startswith("okane_core::report::intern"):
+                if not any(r.kind in ("agg", "closure") and str(r.name).replace("closure:", "") == b.key
+                           for a in pt["args"][1:] for r in prov(par, a)):
+                    continue
+                for r in prov(par, pt["args"][0]):
+                    if r.kind == "call" and r.name in LOOKUPS and r.site is not None and same_key(par, par.term(r.site)["args"][1]):
+                        return "in the %s closure of %s(same key)" % (last, r.name.rsplit("::", 1)[-1])
+        return None
+    # 3. every caller passes the key and is itself guarded
+    if depth >= 3 or not all(k[0] == "param" for k in kn) or len(names) != 1:
+        return None
+    pidx = None
+    for i in range(1, b.argc + 1):
+        if b.local_name(i) in names:
+            pidx = i
+    callers = [c for c in q.callers_of(P, b.key) if q.not_test(c[0])]
+    if pidx is None or not callers or q.value_refs_of(P, b.key):
+        return None
+    why = []
+    for cb, cbb, ct in callers:
+        if len(ct["args"]) != b.argc:
+            return None
+        w = _absent_guard(P, cb, cbb, ct["args"][pidx - 1], depth + 1)
+        if w is None:
+            return None
+        why.append(w)
+    return "every caller: " + "; ".join(sorted(set(why)))
+
+
+def intern_impl_after_absent_lookup(P):
+    """every records.insert of the intern store is reached only when a lookup of the same key found nothing: in the
+    inserting function itself, or at every call site of it (followed up the call graph through the key argument)."""
+    n = 0
+    for b in sorted(P.bodies.values(), key=lambda b: b.key):
+        if not q.not_test(b) or not b.key.startswith(("okane_core::report::intern", "<okane_core::report::intern")):
             continue
         for bb, t in b.calls():
-            if callee_def(t) == "std::collections::HashMap::insert" and b.key not in impls:
-                return False, "records.insert outside the *_impl functions: " + b.key
-    return True, "%d call(s) of the *_impl functions, each under a None lookup of the same key" % n
+            if callee_def(t) != "std::collections::HashMap::insert":
+                continue
+            n += 1
+            w = _absent_guard(P, b, bb, t["args"][1])
+            if w is None:
+                return False, "%s: records.insert without a preceding absent lookup of the same key (%s)" % (b.key, b.loc(bb))
+    if n == 0:
+        return False, "no records.insert found in report::intern"
+    return True, "%d records.insert site(s), each reached only after an absent lookup of the same key" % n
 
 
 # ---------------------------------------------------------------------------
